@@ -5,10 +5,17 @@ TIER="${1:-quick}"
 ROOT="${VERIF_ROOT:-/verif}"
 OUT="${VERIF_OUT:-$ROOT}"
 rc=0
-$ROOT/target/release/fpmc C08 "$TIER"; r=$?; [ $r -gt $rc ] && rc=$r
+# the two feature builds are started first and run in parallel with the core explorer (separate target dirs)
+ff() { if [ -z "${VERIF_FEATFLAGS:-}" ]; then echo "--features $1"; else echo "${VERIF_FEATFLAGS},$1"; fi; }
 for feat in rkyv rkyv,packed; do
   d=$ROOT/target/feat-$(echo $feat | tr , -)
-  ( cd $ROOT/engine && CARGO_TARGET_DIR=$d cargo build --release --offline $(if [ -z "${VERIF_FEATFLAGS:-}" ]; then echo "--features $feat"; else echo "${VERIF_FEATFLAGS},$feat"; fi) ) >$d.build.log 2>&1 || { echo "MACHINERY-FAILURE: build with --features $feat failed" >&2; tail -20 $d.build.log >&2; exit 2; }
+  ( cd $ROOT/engine && CARGO_TARGET_DIR=$d cargo build --release --offline $(ff $feat) >$d.build.log 2>&1; echo $? > $d.build.rc ) &
+done
+$ROOT/target/release/fpmc C08 "$TIER"; r=$?; [ $r -gt $rc ] && rc=$r
+wait
+for feat in rkyv rkyv,packed; do
+  d=$ROOT/target/feat-$(echo $feat | tr , -)
+  if [ "$(cat $d.build.rc 2>/dev/null)" != "0" ]; then echo "MACHINERY-FAILURE: build with --features $feat failed" >&2; tail -20 $d.build.log >&2; exit 2; fi
   $d/release/fpmc C08R "$TIER" | sed 's/property=C08R/property=C08/'; r=${PIPESTATUS[0]}; [ $r -gt $rc ] && rc=$r
   mv "$OUT/evidence/C08R.json" "$OUT/evidence/.C08R-$(echo $feat | tr , -).json"
 done
